@@ -32,6 +32,21 @@ Theorem C13_defined_earlier : forall cwd exec root pre doc name deps outs cmds p
                     In t ts /\ has_ltask ts0 name = false.
 Proof. exact task_sees_earlier_vars. Qed.
 Print Assumptions C13_defined_earlier.
+(* "evaluated in file order", for exec: `exec` is indexed by the statement at which it is called, so nothing is assumed about
+   two calls with the same text printing the same thing; the variable defined at statement number k holds the (trimmed)
+   output of the execution made at that statement *)
+Theorem C13_exec_is_its_own_execution : forall cwd (exec : nat -> bytes -> option bytes) root pre n c vs ts,
+  load cwd exec root (pre ++ [NAssign n (RFunc k_exec [AString c])]) = LOk vs ts ->
+  exists o, exec (length pre) c = Some o /\ lookup_var vs n = Some (trim o).
+Proof. exact exec_var_is_its_own_execution. Qed.
+Print Assumptions C13_exec_is_its_own_execution.
+(* a command that counts its own runs: ONE := exec("c") ; TWO := exec("c") gives 1 and 2 *)
+Example C13_same_text_twice :
+  load [47] (fun k _ => Some [N.of_nat (49 + k)]) [47]
+       [NAssign [79] (RFunc k_exec [AString [99]]); NAssign [84] (RFunc k_exec [AString [99]])]
+  = LOk [([79], [49%N]); ([84], [50%N])] [].
+Proof. vm_compute. reflexivity. Qed.
+Print Assumptions C13_same_text_twice.
 Theorem C13_commands_expanded : forall root vs doc name deps outs cmds t,
   load_task root vs doc name deps outs cmds = Some t -> Forall2 (fun c o => expand_vars vs c = TOk o) cmds (lt_cmds t).
 Proof. exact commands_expanded. Qed.
